@@ -36,7 +36,8 @@ META = {
     'rule': ("cases = generated topologies: 3-5 atom types, tables for bonds/angles/dihedrals with exact, reversed and wildcard keys "
              "(every mask), 1-3 terms per key, parameterless interactions in both directions, 1-4 instances, defines, nonbond_params "
              "subsets; plus the complete enumeration masks x directions x tie pairs; non-trivial = a case in which at least one "
-             "parameterless interaction is resolved through a reversed or wildcard key; distinct by topology text"),
+             "parameterless interaction is resolved through a reversed or wildcard key; distinct by topology text"
+             "; directed / added families (waves 10-12): type entries under #ifdef / #ifndef / #else judged per define state; macros inside the include-guard idiom"),
 }
 
 TYPES = ['TA', 'TB', 'TC', 'TD', 'TE']
